@@ -60,6 +60,8 @@ type spec struct {
 	Outside    []string            `json:"outside"`
 	Tiers      map[string]tierSpec `json:"tiers"`
 	ExtraPkgs  []string            `json:"extra_pkgs"`
+	BuildTags  string              `json:"build_tags"`
+	NativeTimeoutS int             `json:"native_timeout_s"` // deadline of one native replay (default 60)
 	QuickSkip  []string            `json:"quick_skip"` // harness name substrings only run in the thorough tier
 	NoNative   bool                `json:"no_native"`
 	Solver     string              `json:"solver"`     // z3 (default) | z3-new | cvc5  // harness cannot be replayed natively (schedule exploration)
@@ -163,6 +165,14 @@ func replay(file string) int {
 			fmt.Fprintln(os.Stderr, "gosym:", err)
 			return 2
 		}
+		if strings.Contains(out, "panic: test timed out") {
+			// the native run never finished: show where it hangs
+			if k := strings.Index(out, "panic: test timed out"); k >= 0 {
+				fmt.Println(tail(out[k:], 400))
+			}
+			fmt.Printf("VIOLATION property=%s replay=%s\n", rf.Property, abs)
+			return 1
+		}
 		if strings.Contains(out, "VERIF-ASSERT-FAIL") || strings.Contains(out, "VERIF-PANIC") || strings.Contains(out, "fatal error:") {
 			fmt.Printf("VIOLATION property=%s replay=%s\n", rf.Property, abs)
 			return 1
@@ -226,6 +236,31 @@ func overlayFiles(id string, s *spec) map[string]string {
 		m[filepath.Join(repoModule, s.Pkg, "zz_verif_"+strings.ToLower(id)+"_"+filepath.Base(f))] = filepath.Join(verifRoot, "harness", id, f)
 	}
 	return m
+}
+
+// retarget rewrites the package clause of a shared harness file (harness/common/*) to the
+// package it is overlaid into.
+func retarget(src []byte, pkgName string) []byte {
+	lines := strings.SplitN(string(src), "\n", 2)
+	for off := 0; ; {
+		nl := strings.IndexByte(string(src[off:]), '\n')
+		if nl < 0 {
+			break
+		}
+		line := strings.TrimSpace(string(src[off : off+nl]))
+		if strings.HasPrefix(line, "package ") {
+			if strings.Fields(line)[1] == pkgName {
+				return src
+			}
+			out := append([]byte{}, src[:off]...)
+			out = append(out, []byte("package "+pkgName)...)
+			out = append(out, src[off+nl:]...)
+			return out
+		}
+		off += nl + 1
+	}
+	_ = lines
+	return src
 }
 
 type evidence struct {
@@ -421,6 +456,9 @@ func runUnit(id, tier string, s *spec, ts tierSpec, u unitSpec, seed int64, filt
 			fmt.Fprintln(os.Stderr, "gosym:", err)
 			return 2
 		}
+		if pn, perr := packageName(filepath.Join(repoModule, sp.Pkg)); perr == nil && strings.Contains(virt, "/zz_verif_"+strings.ToLower(id)+"_") {
+			b = retarget(b, pn)
+		}
 		overlay[virt] = b
 	}
 	cfg := &interp.Config{
@@ -428,6 +466,7 @@ func runUnit(id, tier string, s *spec, ts tierSpec, u unitSpec, seed int64, filt
 		Patterns:   append([]string{"./" + sp.Pkg, "./zz_verif/verif"}, sp.ExtraPkgs...),
 		Overlay:    overlay,
 		Env:        goEnv(),
+		BuildTags:  s.BuildTags,
 		Solver:     firstNonEmpty(os.Getenv("GOSYM_SOLVER"), s.Solver),
 		TimeoutMs:  ts.TimeoutMs,
 		Seed:       seed,
@@ -589,6 +628,14 @@ func runUnit(id, tier string, s *spec, ts tierSpec, u unitSpec, seed int64, filt
 					continue
 				}
 				ok, why := compareNative(out, sm.Observes, sm.FailsAll)
+				// harnesses with native non-determinism (real time, real randomness) declare retries:
+				// the engine's path is one admissible native behaviour, so one agreeing run suffices
+				for t := 0; !ok && t < nat.retries; t++ {
+					if out, err = nat.run(rp); err != nil {
+						break
+					}
+					ok, why = compareNative(out, sm.Observes, sm.FailsAll)
+				}
 				if ok {
 					acc.validated++
 					os.Remove(rp)
@@ -736,13 +783,27 @@ func (n *native) build() error {
 	ov := map[string]string{}
 	for k, v := range n.overlay {
 		ov[k] = v
+		if strings.Contains(k, "/zz_verif_"+strings.ToLower(n.id)+"_") {
+			if b, rerr := os.ReadFile(v); rerr == nil {
+				if nb := retarget(b, pkgName); len(nb) != len(b) || string(nb) != string(b) {
+					cp := filepath.Join(dir, "retargeted_"+filepath.Base(k))
+					if werr := os.WriteFile(cp, nb, 0o644); werr == nil {
+						ov[k] = cp
+					}
+				}
+			}
+		}
 	}
 	ov[filepath.Join(repoModule, n.spec.Pkg, "zz_verif_replay_test.go")] = testFile
 	ob, _ := json.Marshal(map[string]interface{}{"Replace": ov})
 	ovFile := filepath.Join(dir, "overlay.json")
 	os.WriteFile(ovFile, ob, 0o644)
 	n.bin = filepath.Join(dir, "replay.test")
-	cmd := exec.Command("go", "test", "-c", "-vet=off", "-overlay", ovFile, "-o", n.bin, "./"+n.spec.Pkg)
+	args := []string{"test", "-c", "-vet=off", "-overlay", ovFile, "-o", n.bin}
+	if n.spec.BuildTags != "" {
+		args = append(args, "-tags", n.spec.BuildTags)
+	}
+	cmd := exec.Command("go", append(args, "./"+n.spec.Pkg)...)
 	cmd.Dir = repoModule
 	cmd.Env = append(os.Environ(), goEnv()...)
 	out, err := cmd.CombinedOutput()
@@ -789,7 +850,11 @@ func (n *native) run(replay string) (string, error) {
 	if err := n.build(); err != nil {
 		return "", err
 	}
-	cmd := exec.Command(n.bin, "-test.run", "^TestVerifReplay$", "-test.v", "-test.timeout", "60s")
+	to := "60s"
+	if n.spec.NativeTimeoutS > 0 {
+		to = fmt.Sprintf("%ds", n.spec.NativeTimeoutS)
+	}
+	cmd := exec.Command(n.bin, "-test.run", "^TestVerifReplay$", "-test.v", "-test.timeout", to)
 	cmd.Dir = filepath.Join(repoModule, n.spec.Pkg)
 	cmd.Env = append(os.Environ(), "VERIF_REPLAY="+replay)
 	out, _ := cmd.CombinedOutput()
